@@ -67,7 +67,7 @@ def gen(seed, tier):
         cases.append(cfg + ' | ' + ' ; '.join(ops))
     # large queues (7..9 devices x 40, or an explicit size above 256 / near the uint16_t range): more than 256 frames queued under a long
     # refusal, then drained - the ring indices are 16 bit wide in the code
-    for ndev, q, nmsg in ([(7, 40, 9), (9, 40, 12), (1, 300, 10), (1, 1000, 33)] + ([(1, 65535, 40), (2, 20000, 60)] if thorough else [])):
+    for ndev, q, nmsg in ([(7, 40, 9), (1, 300, 10)] + ([(9, 40, 12), (1, 1000, 33), (1, 65535, 40), (2, 20000, 60)] if thorough else [])):
         cfg = 'NODE mode=1 ndev=%d src=30 q=%d t0=5000 %s' % (ndev, q, ' '.join('tx%d=%s' % (i, ','.join(map(str, FAST))) for i in range(ndev)))
         ops = ['A ' + '0' * (nmsg * 33 + 50)]
         for k in range(nmsg):
